@@ -37,6 +37,7 @@ def _case(draw, tier):
     c["perm"] = list(draw(st.permutations(list(range(N)))))
     c["indices"] = draw(indices_for(N))
     c["compiled"] = draw(st.booleans())
+    c["alias_equal"] = draw(st.booleans())
     return c
 
 
